@@ -41,6 +41,7 @@ pub fn families() -> Vec<&'static dyn Family> {
         &nsim::peerloss::PEER_LOSS,
         &nsim::rrslow::RR_SLOW,
         &nsim::rereg::REREG,
+        &nsim::hostile_server::HOSTILE_SERVER,
     ]
 }
 
@@ -174,7 +175,7 @@ pub fn plan(property: &str) -> Option<CheckPlan> {
             assumptions: vec!["R part: frames reach the router already decoded (the codec is exercised by C05/C06 and by the N part)"],
             real: R_REAL.to_vec(),
             stubbed: R_STUB.to_vec(),
-            items: vec![PlanItem { family: &rsim::reqrep::RR_FRAMES, quick: 100_000, thorough: 3_000_000 }, PlanItem { family: &rsim::reqrep::RR_REPLIERS, quick: 60_000, thorough: 1_500_000 }, PlanItem { family: &rsim::reqrep::RR_FRAMES_REBIND, quick: 40_000, thorough: 1_000_000 }, PlanItem { family: &nsim::frames::HOSTILE_FRAMES, quick: 300, thorough: 15_000 }],
+            items: vec![PlanItem { family: &rsim::reqrep::RR_FRAMES, quick: 100_000, thorough: 3_000_000 }, PlanItem { family: &rsim::reqrep::RR_REPLIERS, quick: 60_000, thorough: 1_500_000 }, PlanItem { family: &rsim::reqrep::RR_FRAMES_REBIND, quick: 40_000, thorough: 1_000_000 }, PlanItem { family: &nsim::frames::HOSTILE_FRAMES, quick: 300, thorough: 15_000 }, PlanItem { family: &nsim::hostile_server::HOSTILE_SERVER, quick: 200, thorough: 10_000 }],
         }),
         "C05" => Some(CheckPlan {
             property: "C05",
@@ -192,7 +193,7 @@ pub fn plan(property: &str) -> Option<CheckPlan> {
             assumptions: vec!["an allocation request above 256 MiB + 16 x input size counts as unrelated to the input; above 3 GiB it is refused and the resulting abort is attributed by the supervisor"],
             real: vec!["MessageCodec + FramedRead", "decode_message_batch", "StringCodec / BytesCodec / BincodeCodec::decode", "gzip, zlib, zstd, lz4, brotli decompressors of selium-std", "the subscriber's decompress -> unbatch -> decode order (re-stated in the harness; the real Subscriber runs in the N-engine)"],
             stubbed: vec!["byte transport (scripted SimPipe)", "allocator (counting wrapper around the system allocator)"],
-            items: vec![PlanItem { family: &wsim::hostile::WIRE_HOSTILE, quick: 300_000, thorough: 10_000_000 }, PlanItem { family: &nsim::hostile::HOSTILE_PEER, quick: 300, thorough: 20_000 }],
+            items: vec![PlanItem { family: &wsim::hostile::WIRE_HOSTILE, quick: 300_000, thorough: 10_000_000 }, PlanItem { family: &nsim::hostile::HOSTILE_PEER, quick: 300, thorough: 20_000 }, PlanItem { family: &nsim::hostile_server::HOSTILE_SERVER, quick: 300, thorough: 20_000 }],
         }),
         "C03" => Some(CheckPlan {
             property: "C03",
